@@ -4,6 +4,7 @@ package main
 
 import (
 	"fmt"
+	"os"
 	"sort"
 	"strings"
 
@@ -12,12 +13,13 @@ import (
 )
 
 type comparer struct {
-	res  *evalResult
-	spec string
+	res    *evalResult
+	spec   string
+	prefix string // "" for the direct layer, "context: " for the pipeline layer
 }
 
 func (c *comparer) fail(kind, format string, a ...any) {
-	c.res.Findings = append(c.res.Findings, finding{Kind: kind, What: fmt.Sprintf(format, a...) + " — schemas " + c.spec})
+	c.res.Findings = append(c.res.Findings, finding{Kind: c.prefix + kind, What: fmt.Sprintf(format, a...) + " — schemas " + c.spec})
 }
 
 func (c *comparer) count(k string) { c.res.Counters[k]++ }
@@ -50,6 +52,14 @@ func (c *comparer) compare(expected []expObject, real []ast.Builder) {
 		objects[k] = e
 		n := len(byKey[k])
 		switch {
+		case e.builder && n == 0 && c.prefix != "" && !e.wantsOption() && os.Getenv("VERIF_C16_STRICT_DISMISSAL") == "":
+			// Lenience (context layer only): the property observes the builders
+			// before veneers; the context is seen after the veneer engine ran, and
+			// that engine — even with no rule configured — treats a builder without
+			// options as dismissed (rewrite.applyOptionRules: "no options means that
+			// the builder was dismissed"). A struct whose fields are all fixed by the
+			// schema therefore has no builder there; this is C17's subject.
+			c.count("lenient:context builder without options dismissed by the veneer engine")
 		case e.builder && n == 0:
 			c.fail("missing-builder @ "+e.class, "object %s.%s is a struct (%s) but got no builder", e.pkg, e.obj.Name, e.class)
 		case e.builder && n > 1:
@@ -84,6 +94,15 @@ func (c *comparer) compareBuilder(e expObject, b ast.Builder) {
 	}
 	fieldNames := map[string]bool{}
 	for _, f := range e.fields {
+		if fieldNames[f.field.Name] {
+			// Precondition (checked, not assumed): field names are unique within a
+			// struct. A struct with two fields of one name (DisjunctionToType names
+			// the fields of `p.S | q.S` "S" twice) is an ill-formed object — C06's
+			// subject — and "the option targeting field S" is ambiguous: the field
+			// coverage of this builder is not judged.
+			c.count("not-judged:struct with duplicate field names (C06)")
+			return
+		}
 		fieldNames[f.field.Name] = true
 	}
 	for _, f := range e.fields {
